@@ -10,6 +10,7 @@ import (
 
 	"github.com/ldclabs/cose/cwt"
 	"github.com/ldclabs/cose/iana"
+	"github.com/ldclabs/cose/key"
 )
 
 func init() {
@@ -52,6 +53,40 @@ func cwtReason(err error) string {
 
 // args: nowS nowN skew am ip ei ea exp nbf iat iss aud   (claims: `a` absent or a value token)
 func execCwt(op string, a []string) string {
+	if op == "cwt.wallclock" {
+		// cwt.wallclock: a validator without FixedNow (the production configuration) reads the clock at every call: one
+		// validator, a token that expires / becomes valid within two seconds, asked before and after that moment,
+		// struct and map path; a fresh validator must agree with the reused one.  (The only op that sleeps, ~2-3 s.)
+		v, err := cwt.NewValidator(&cwt.ValidatorOpts{})
+		if err != nil {
+			return "err"
+		}
+		t := uint64(time.Now().Unix()) + 2
+		expiring, starting := &cwt.Claims{Expiration: t}, &cwt.Claims{Expiration: t + 3600, NotBefore: t}
+		mapOf := func(c *cwt.Claims) cwt.ClaimsMap {
+			m := cwt.ClaimsMap{iana.CWTClaimExp: c.Expiration}
+			if c.NotBefore != 0 {
+				m[iana.CWTClaimNbf] = c.NotBefore
+			}
+			return m
+		}
+		if v.Validate(expiring) != nil || v.ValidateMap(mapOf(expiring)) != nil || v.Validate(starting) == nil || v.ValidateMap(mapOf(starting)) == nil {
+			return "first-use-wrong"
+		}
+		for uint64(time.Now().Unix()) <= t {
+			time.Sleep(100 * time.Millisecond)
+		}
+		fresh, _ := cwt.NewValidator(&cwt.ValidatorOpts{})
+		for _, vv := range []*cwt.Validator{v, fresh} {
+			if vv.Validate(expiring) == nil || vv.ValidateMap(mapOf(expiring)) == nil {
+				return "EXPIRED-TOKEN-STILL-ACCEPTED"
+			}
+			if vv.Validate(starting) != nil || vv.ValidateMap(mapOf(starting)) != nil {
+				return "VALID-TOKEN-STILL-REFUSED"
+			}
+		}
+		return "ok"
+	}
 	if len(a) != 12 {
 		return "bad-op"
 	}
@@ -78,8 +113,7 @@ func execCwt(op string, a []string) string {
 		cm := cwt.ClaimsMap{}
 		for i, label := range []int{iana.CWTClaimExp, iana.CWTClaimNbf, iana.CWTClaimIat, iana.CWTClaimIss, iana.CWTClaimAud} {
 			if a[7+i] != "a" {
-				val, _ := parseVal(a[7+i:8+i], 0)
-				cm[label] = val
+				cm[label] = cwtVal(a[7+i])
 			}
 		}
 		return v.ValidateMap(cm)
@@ -141,12 +175,39 @@ func execCwt(op string, a []string) string {
 	return "unknown-op"
 }
 
+// cwtVal: one token per claim value; compound values in a compact one-token form:
+//
+//	L:<tok>+<tok>…  an array, LL:<tok>+…  an array holding one array, M:<tok>+<tok>  a one-entry map
+func cwtVal(tok string) any {
+	list := func(body string) []any {
+		var l []any
+		for _, t := range strings.Split(body, "+") {
+			v, _ := parseVal([]string{t}, 0)
+			l = append(l, v)
+		}
+		return l
+	}
+	switch {
+	case strings.HasPrefix(tok, "LL:"):
+		return []any{list(tok[3:])}
+	case strings.HasPrefix(tok, "L:"):
+		return list(tok[2:])
+	case strings.HasPrefix(tok, "M:"):
+		kv := list(tok[2:])
+		return key.CoseMap{kv[0]: kv[1]}
+	}
+	v, _ := parseVal([]string{tok}, 0)
+	return v
+}
+
 func genCwt(r *rand.Rand, n int) []string {
-	var out []string
+	out := []string{"cwt.wallclock"}
 	nows := [][2]int64{{1700000000, 0}, {1700000000, 999999999}, {1, 500}, {1 << 31, 1}, {1 << 32, 0}, {4102444800, 123456789}, {601, 0}, {1 << 40, 7}}
 	skews := []int64{0, 1, 1000000000, 60000000000, 600000000000, 600000000001, -1, -1000000000, -600000000000, 999999999, 1500000000, -1500000000, 900000000000, math.MinInt64 + 1}
 	invalids := []string{"i64:-1", "int:-5", "f:1.5", "t:3137", "nil", "b:01", "T", "i8:-128", "f:1700000000"}
-	strs := []string{"a", "t:-", "t:697373", "t:6f74686572", "int:3", "nil", "b:697373"}
+	// (index 0..3: the text / absent values; then values of other types, incl. RFC 7519-style arrays of audiences, which
+	// RFC 8392 tokens may carry and this library refuses as "invalid")
+	strs := []string{"a", "t:-", "t:697373", "t:6f74686572", "int:3", "nil", "b:697373", "L:t:697373", "L:int:1", "L:nil+t:697373", "L:t:61+b:01", "LL:t:697373", "M:int:1+t:697373"}
 	for len(out) < 3*n {
 		now := nows[r.Intn(len(nows))]
 		if r.Intn(4) == 0 {
